@@ -49,6 +49,15 @@ LEAP_TEXT = ("PVL", "ISIS", "ISISv", "default")
 QUICK_YEARS = [1, 4, 99, 100, 400, 999, 1000, 1900, 2000, 2024, 9999]
 
 
+
+def rotated(seq, text):
+    """The variants in an order that depends on the text: whichever dialect is asked
+    first about a text, the others must still give their own answer."""
+    import zlib
+    k = zlib.crc32(text.encode("utf-8", "surrogatepass")) % len(seq)
+    return list(seq[k:]) + list(seq[:k])
+
+
 def EXHAUSTIVE(tier):
     return True
 
@@ -144,7 +153,7 @@ def dates_of_years(acc, years):
             doy = dt.timetuple().tm_yday
             for text in (f"{y:04d}-{dt.month:02d}-{dt.day:02d}", f"{y:04d}-{doy:03d}"):
                 exp = ("date", dt.toordinal())
-                for d in PARSERS:
+                for d in rotated(PARSERS, text):
                     r = check_decode(d, text, exp)
                     nt = boundary_date(dt) or "-" not in text[5:]
                     acc.case(key=d + text, nontrivial=nt,
@@ -160,7 +169,7 @@ def dates_of_years(acc, years):
         # day 366 of a non-leap year is outside the grammar
         if not (y % 4 == 0 and (y % 100 != 0 or y % 400 == 0)):
             text = f"{y:04d}-366"
-            for d in PARSERS:
+            for d in rotated(PARSERS, text):
                 r = check_decode(d, text, ("not-wrong-date",))
                 acc.case(key=d + text, nontrivial=True)
                 if r is not None:
@@ -190,7 +199,7 @@ def time_literals(acc, hs):
                 us = int(frac.ljust(6, "0"))
             for z in ("", "Z"):
                 text = body + z
-                for d in PARSERS:
+                for d in rotated(PARSERS, text):
                     off = 0 if z else None
                     exp = nm.canon_time(h, m, s if secs else 0, us, off,
                                         d in DEFAULT_UTC)
@@ -238,7 +247,7 @@ def zone_literals(acc):
         for sp in offset_spellings(hh, mm):
             off = (abs(hh) * 60 + mm) * (-1 if sp[0] == "-" else 1)
             text = (date[3] + "T" if date else "") + btext + sp
-            for d in PARSERS:
+            for d in rotated(PARSERS, text):
                 if d in OFFSET_READERS:
                     if date:
                         exp = nm.canon_dt(date[0], date[1], date[2], h, m, s, us, off,
@@ -266,7 +275,7 @@ def leap_literals(acc):
              "1990-06-30"]):
         text = (date + "T" if date else "") + f"{h:02d}:{m:02d}:60" + \
             ("." + frac if frac else "") + z
-        for d in PARSERS:
+        for d in rotated(PARSERS, text):
             exp = ("str", text) if d in LEAP_TEXT else ("reject", "seconds-60")
             r = check_decode(d, text, exp)
             acc.case(key=d + text, nontrivial=True,
@@ -305,7 +314,7 @@ def datetime_literals(acc, n, seed):
                 ttext += "." + frac
                 us2 = int(frac.ljust(6, "0"))
         text = dtext + "T" + ttext + z
-        for d in PARSERS:
+        for d in rotated(PARSERS, text):
             exp = nm.canon_dt(date.year, date.month, date.day, h, m, s, us2,
                               0 if z else None, d in DEFAULT_UTC)
             if d == "PDS3" and us2 % 1000:
